@@ -70,6 +70,28 @@ pub fn role_sender(args: &[String]) -> i32 {
     0
 }
 
+/// Child receiver: takes over the receiving end and reads until it is killed.
+pub fn role_reader(args: &[String]) -> i32 {
+    let name = args[0].clone();
+    let (btx, brx) = ipc::channel::<IpcReceiver<M>>().unwrap();
+    let boot: IpcSender<IpcSender<IpcReceiver<M>>> = IpcSender::connect(name).unwrap();
+    boot.send(btx).unwrap();
+    drop(boot);
+    let rx = brx.recv().unwrap();
+    drop(brx);
+    let slow: u64 = args[1].parse().unwrap_or(0);
+    loop {
+        match rx.recv() {
+            Ok(_) => {
+                if slow > 0 {
+                    std::thread::sleep(Duration::from_micros(slow));
+                }
+            },
+            Err(_) => return 0,
+        }
+    }
+}
+
 fn read_stamps(path: &str) -> Vec<SendRec> {
     let mut v = Vec::new();
     if let Ok(s) = std::fs::read_to_string(path) {
@@ -89,13 +111,14 @@ pub fn run_case(ctx: &Ctx, sz: &Sizes, case: u64) {
     // 0 same thread, 1 other thread, 2 other process
     let actor = if is_os() { r.below(3) } else { r.below(2) } as u8;
     // 0 receiver held and reading, dropped after k messages; 1 in transit then unpacked; 2 in transit, carrier dropped; 3 nested transit, outer carrier dropped
-    let rxmode = r.below(4) as u8;
+    // 4 (process sender only): the receiving end lives in a third process that is SIGKILLed while it reads
+    let rxmode = if actor == 2 && r.chance(300) { 4 } else { r.below(4) as u8 };
     let n = r.range(3, 40) as usize;
-    let reading = rxmode == 0 && actor != 0;
-    let big = reading && r.chance(400);
+    let reading = (rxmode == 0 && actor != 0) || rxmode == 4;
+    let big = reading && (rxmode == 4 || r.chance(400));
     let lens: Vec<usize> = (0..n)
         .map(|_| {
-            if big && r.chance(250) {
+            if big && r.chance(if rxmode == 4 { 600 } else { 250 }) {
                 // multi-packet, sometimes larger than what the kernel can buffer behind a dead reader
                 let hi = if r.chance(300) { 1 << 20 } else { 3 * sz.f2 as u64 };
                 sz.f1 + r.range(1, hi) as usize
@@ -115,7 +138,7 @@ pub fn run_case(ctx: &Ctx, sz: &Sizes, case: u64) {
     let vanish_begin = Arc::new(AtomicU64::new(u64::MAX));
     let vanish_end = Arc::new(AtomicU64::new(u64::MAX));
     let actor_name = ["same-thread", "thread", "process"][actor as usize];
-    let rx_name = ["held-reading", "in-transit-then-unpacked", "in-transit-carrier-dropped", "nested-transit-carrier-dropped"][rxmode as usize];
+    let rx_name = ["held-reading", "in-transit-then-unpacked", "in-transit-carrier-dropped", "nested-transit-carrier-dropped", "reader-process-killed-mid-read"][rxmode as usize];
     let base = json!({"case": case, "variant": variant(), "actor": actor_name,
         "receiver": rx_name,
         "messages": n, "drop_after": drop_after, "max_len": lens.iter().max(), "sndbuf": sz.sndbuf});
@@ -129,8 +152,17 @@ pub fn run_case(ctx: &Ctx, sz: &Sizes, case: u64) {
         Held(IpcReceiver<M>),
         Transit(IpcReceiver<IpcReceiver<M>>),
         Nested(IpcReceiver<IpcReceiver<IpcReceiver<M>>>),
+        Reader(std::process::Child),
     }
     let place = match rxmode {
+        4 => {
+            let (server, name) = must("server", IpcOneShotServer::<IpcSender<IpcReceiver<M>>>::new());
+            let slow = if r.chance(500) { r.below(400) } else { 0 };
+            let rc = std::process::Command::new(self_exe()).args(["role", "c09-reader", &name, &slow.to_string()]).spawn().expect("spawn reader");
+            let (_b, btx) = server.accept().expect("accept reader");
+            btx.send(rx).expect("hand over receiver");
+            Place::Reader(rc)
+        },
         0 => Place::Held(rx),
         1 | 2 => {
             let (ctx_, crx) = must("carrier", ipc::channel::<IpcReceiver<M>>());
@@ -180,6 +212,14 @@ pub fn run_case(ctx: &Ctx, sz: &Sizes, case: u64) {
         vanish_end.store(now_ns(), Ordering::SeqCst);
     };
     match place {
+        Place::Reader(mut rc) => {
+            // let the stream run for a while, then kill the reading process wherever it is
+            std::thread::sleep(Duration::from_micros(r.range(500, 40_000)));
+            vanish(&mut || {
+                let _ = rc.kill();
+                let _ = rc.wait();
+            });
+        },
         Place::Held(rx) => {
             if actor == 0 {
                 // same thread: send the first part, drop, send the rest
@@ -361,7 +401,7 @@ pub fn run_case(ctx: &Ctx, sz: &Sizes, case: u64) {
             }
         } else if s.ret < vbegin {
             if !s.ok {
-                let k = if rxmode == 0 { "send-failed-while-receiver-alive" } else { "send-failed-while-receiver-in-transit" };
+                let k = if rxmode == 0 || rxmode == 4 { "send-failed-while-receiver-alive" } else { "send-failed-while-receiver-in-transit" };
                 problems.push((k.into(), json!({"seq": s.seq, "len": s.len, "error": s.err})));
             } else {
                 before_ok += 1;
